@@ -193,6 +193,11 @@ func init() {
 				Implies(And(Le(zero, x), Lt(x, M)), Eq(Mod(x, M), x)),
 				Implies(And(Le(M, x), Lt(x, MulC(big2, M))), Eq(Mod(x, M), Sub(x, M)))))
 		}, "0 < M: a in [0,M) => a mod M = a;  a in [M,2M) => a mod M = a - M")
+	addLean("div_ceil", "div_ceil", []string{"r", "w"},
+		func(a []*Term) *Term {
+			r, w := a[0], a[1]
+			return Implies(Lt(zero, w), Le(r, Mul(Div(Sub(Add(r, w), ConstI(1)), w), w)))
+		}, "0 < w  =>  r <= ((r + w - 1) / w) * w")
 	addLean("mod_add_multiple", "mod_add_multiple", []string{"a", "b", "M"},
 		func(a []*Term) *Term {
 			return Implies(Eq(Mod(a[1], a[2]), zero), Eq(Mod(Add(a[0], a[1]), a[2]), Mod(a[0], a[2])))
